@@ -649,8 +649,11 @@ func (l *segment) current() ([]byte, error) {
 	}
 	l.currentSize = int64(sz)
 
-	if int64(sz) > l.maxSize {
-		return nil, fmt.Errorf("record size out of range: max %d: got %d", l.maxSize, sz)
+	// A record cannot be larger than the file holding it. (The configured maximum is not a
+	// valid bound: it may have been lowered after the record was accepted, and treating
+	// such a record as corrupt makes the processor truncate the segment.)
+	if int64(sz) > l.size {
+		return nil, fmt.Errorf("record size out of range: max %d: got %d", l.size, sz)
 	}
 
 	b := make([]byte, sz)
